@@ -308,6 +308,8 @@ class ExprMixin:
         """Python bool or Sym bool."""
         if isinstance(op, (ast.Is, ast.IsNot)):
             r = self.identical(a, b)
+            if isinstance(r, Sym):
+                return r if isinstance(op, ast.Is) else mk("bool", z3.Not(r.t))
             return r if isinstance(op, ast.Is) else (not r)
         if isinstance(op, (ast.In, ast.NotIn)):
             r = self.contains(b, a)
@@ -322,7 +324,21 @@ class ExprMixin:
             return (not r) if isinstance(r, bool) else mk("bool", z3.Not(r.t))
         return self.order(sym, a, b)
 
-    def identical(self, a, b) -> bool:
+    def identical(self, a, b):
+        if isinstance(a, MapElem) or isinstance(b, MapElem):
+            # objects of a heap region: the same object iff the keys are equal; key -1 stands for None (specification context)
+            if a is None or b is None:
+                e = a if b is None else b
+                t = z3.simplify(e.key == -1)
+            elif isinstance(a, MapElem) and isinstance(b, MapElem) and a.map_ref.addr == b.map_ref.addr:
+                t = z3.simplify(a.key == b.key)
+            else:
+                return False
+            if z3.is_true(t):
+                return True
+            if z3.is_false(t):
+                return False
+            return mk("bool", t)
         if isinstance(a, (Sym, SeqV)) or isinstance(b, (Sym, SeqV)):
             if a is None or b is None:
                 return False
@@ -352,6 +368,14 @@ class ExprMixin:
 
     def equals(self, a, b):
         """Python `==`: Python bool or Sym bool."""
+        if isinstance(a, MapElem) or isinstance(b, MapElem):
+            for x in (a, b):
+                if isinstance(x, MapElem):
+                    cell = self.old_heap[x.map_ref.addr] if x.old else self.path.cell(x.map_ref)
+                    m = self.find_method(cell.refcls, "__eq__")
+                    if m is not None and m[0] is not object.__eq__:
+                        raise Unsupported("__eq__ of a region object")
+            return self.identical(a, b)
         if isinstance(a, Ref) != isinstance(b, Ref):
             a, b = self.unwrap_key(a), self.unwrap_key(b)      # A-KEY: a decoded item compared with a plain value
         if is_scalar(a) and is_scalar(b):
@@ -744,7 +768,12 @@ class ExprMixin:
         return self.comprehension(node, frame, "list")
 
     def e_GeneratorExp(self, node, frame):
-        return self.comprehension(node, frame, "list")
+        # read eagerly as a list (element expressions and conditions are side-effect free in the supported subset); the
+        # result is remembered as a not-yet-consumed generator so that next(<generator expression>, default) can be modelled
+        r = self.comprehension(node, frame, "list")
+        if isinstance(r, Ref):
+            self.path.ghost.setdefault("genexp", set()).add(r.addr)
+        return r
 
     def e_SetComp(self, node, frame):
         raise Unsupported("set comprehension")
